@@ -3,6 +3,7 @@ package keymap
 import (
 	"sort"
 	"strings"
+	"unicode/utf8"
 
 	"github.com/reeflective/readline/inputrc"
 	"github.com/reeflective/readline/internal/core"
@@ -188,6 +189,22 @@ func (m *Engine) matchBind(keys []byte, binds map[string]inputrc.Bind) (inputrc.
 
 		if string(keys) == seq {
 			match = binds[sequence]
+		}
+	}
+
+	// The default keymaps only bind the ASCII characters to self-insert. In a
+	// keymap where those insert themselves, a character encoded on several
+	// bytes does as well: its complete UTF-8 encoding matches self-insert
+	// (unless the sequence is bound to something else), and an incomplete
+	// encoding is a prefix waiting for its remaining bytes.
+	if len(keys) > 0 && keys[0] >= utf8.RuneSelf && binds["a"].Action == "self-insert" {
+		char, size := utf8.DecodeRune(keys)
+
+		switch {
+		case !utf8.FullRune(keys):
+			prefixed = append(prefixed, inputrc.Bind{Action: "self-insert"})
+		case match.Action == "" && char != utf8.RuneError && size == len(keys):
+			match = inputrc.Bind{Action: "self-insert"}
 		}
 	}
 
